@@ -1713,4 +1713,29 @@ Proof.
   assert (tg' = tg) by (eapply NoDup_map_inj; eauto). subst. congruence.
 Qed.
 
+(* ====================================================================== *)
+(* Every target is injected on its own: several components / modes may be   *)
+(* instances of ONE class (same k_cls, same annotations) and still differ in *)
+(* what each instance already has -- hasattr is a fact about the instance.   *)
+(* ====================================================================== *)
+
+(* the update written into a target is _setup_vars of THAT target -- its own
+   name, annotations and hasattr -- against the complete injectables; no other
+   target, of the same class or not, created before or after, enters *)
+Theorem each_target_on_its_own r s :
+  startup subclass r = Ok s ->
+  Forall2 (fun tg u => fst u = t_ref tg /\ setup_vars subclass tg (all_injectables r) = Ok (snd u))
+          (targets r) (st_updates s).
+Proof. intros HS. exact (proj2 (proj2 (startup_ok _ _ HS))). Qed.
+
+(* and a target whose own _setup_vars fails stops start-up, whatever the
+   other instances of its class have *)
+Theorem target_failure_on_its_own r tg e :
+  In tg (targets r) -> setup_vars subclass tg (all_injectables r) = Err e ->
+  exists e', startup subclass r = Err e'.
+Proof.
+  intros Htg HE. destruct (startup subclass r) as [s|e'] eqn:HS; [exfalso|eauto].
+  destruct (Forall2_In_l _ _ _ _ (each_target_on_its_own _ _ HS) Htg) as (u & _ & _ & E). congruence.
+Qed.
+
 End WithSubclass.
